@@ -180,8 +180,17 @@ VRefMk(e) ==
   IN IF \E u \in Candidates(vZone, L) : ~ClockAt(vZone, u)[1] THEN {}     \* beyond an expired table: out of domain
      ELSE IF mine = theirs THEN {} ELSE {"C10-reference-mktime-disagrees-with-spec"}
 
+\* ---- C15: static footprint facts (one event per occurrence found by the source scan) ----
+FootprintAllowed(a) ==
+  \/ a.kind = "clock" /\ a.file = "src/utils/system_time.rs"          \* SystemTime::now, only behind now() / find_current_local_time_type
+  \/ a.kind = "fs" /\ a.file = "src/timezone/mod.rs"                   \* std::fs::read, only as the default of the injectable read function
+VFootprint(e) == IF FootprintAllowed(e.a) THEN {} ELSE {"C15-global-state-footprint"}
+
 Verdict(e) ==
   CASE e.op = "gmtime" -> VGmtime(e)
+    [] e.op = "footprint" -> VFootprint(e)
+    [] e.op = "posixtz" -> NoPanic(e.r)
+    [] e.op = "local" -> NoPanic(e.r)
     [] e.op = "ref" -> VRef(e)
     [] e.op = "refmk" -> VRefMk(e)
     [] e.op = "resolve" -> VResolve(e)
@@ -205,6 +214,8 @@ Verdict(e) ==
     [] e.op = "findn" -> VFindN(e)
     [] OTHER -> {"unknown-op"}
 
+\* C15: an event replayed on several threads sharing the same values must have given every thread the sequential result
+ThreadTags(e) == IF Has(e, "tmis") /\ e.tmis > 0 THEN {"C15-thread-result-differs"} ELSE {}
 Init == vL = 1 /\ vZone = UtcZone /\ vBuf = EmptyBuf /\ vBad = {} /\ vInfo = {}
 Step(e) ==
   IF e.op = "zone" THEN
@@ -224,7 +235,7 @@ Step(e) ==
      /\ vInfo' = vInfo \cup (IF Has(e.r, "ok") THEN {<<vL, t>> : t \in ZoneInfo(MkZone(e.r.ok))} ELSE {})
      /\ vBuf' = EmptyBuf
   ELSE
-     /\ vBad' = vBad \cup {<<vL, t>> : t \in Verdict(e)}
+     /\ vBad' = vBad \cup {<<vL, t>> : t \in Verdict(e) \cup ThreadTags(e)}
      /\ vZone' = vZone
      /\ vInfo' = vInfo
      /\ vBuf' = IF e.op = "findn" /\ Has(e.r, "buf") THEN e.r.buf ELSE vBuf
